@@ -133,6 +133,10 @@ class SelfDependencyEliminator(ASTStatementRewriter):
                     include_lhs=False)
                 .copy(
                     # lhs will be rewritten, but we don't want that.
+                    # Neither do we want the guard rewritten: the temporaries
+                    # are only assigned if the guard holds, so the guard
+                    # itself cannot be evaluated in terms of them.
+                    condition=stmt.condition,
                     depends_on=stmt.depends_on | frozenset(tmp_stmt_ids)))
         new_statements.append(new_stmt)
 
